@@ -1492,6 +1492,7 @@ def isunresolvable(t: tp.Any) -> bool:
 
 _UNRESOLVABLE = (
     object,
+    type,
     tp.Any,
     re.Match,
     constants.empty,
